@@ -1,6 +1,822 @@
-"""Checks of the validation properties (filled in later)."""
-PROPS = {}
+"""Checks of the validation properties C09, C10, C11, C16, C19 (model: PfdlModel/Check.lean)."""
+import contextlib
+import copy
+import hashlib
+import io
+import json
+import multiprocessing as mp
+import os
+import random
+import re
+import shutil
+import signal
+import tempfile
+import time
+
+import findings
+import progs
+import vgen
+from sched_family import run_model, _init_worker, CaseTimeout, _alarm
+
+HERE = os.path.dirname(os.path.abspath(__file__))
+VERIF = os.path.abspath(os.path.join(HERE, ".."))
+
+PROPS = {"C09", "C10", "C11", "C16", "C19"}
+
+KIND_PATTERNS = [
+    (r"^Unknown Task '", "unknown_task"),
+    (r"^Unknown Struct '", "unknown_struct"),
+    (r"^Unknown data type '", "unknown_datatype"),
+    (r"^Unknown variable '", "unknown_variable"),
+    (r"^An unknown variable '.*' is used as input of", "unknown_variable_input"),
+    (r"^An unknown variable '.*' is used in the Task Output", "unknown_task_output"),
+    (r"^Struct '.*' has no attribute '", "no_attribute"),
+    (r"^Attribute '.*' is not a Struct", "not_a_struct"),
+    (r"^Attribute '.*' is not an Array", "not_an_array"),
+    (r"^The elements of Array '.*' are no Structs", "elements_no_structs"),
+    (r"^Array elements can not be used in expressions", "array_in_expression"),
+    (r"^A string can not be used as boolean expression", "string_condition"),
+    (r"^The Struct instantiation is not valid JSON", "invalid_json"),
+    (r"^The program is nested too deeply", "too_deep"),
+    (r"^Attribute '.*' is not defined in the instantiated struct", "missing_attribute"),
+    (r"^Unknown attribute '.*' in instantiated struct", "unknown_attribute"),
+    (r"^Attribute '.*' has the wrong type in the instantiated", "wrong_attribute_type"),
+    (r"^Array has elements that does not match", "array_element_type"),
+    (r"^Length of the defined array and the instantiated do not match", "array_length"),
+    (r"^Inputparameter length", "input_length"),
+    (r"^Outputparameter length", "output_length"),
+    (r"^Type of TaskCall parameter", "input_type"),
+    (r"^Type of TaskCall output parameter", "output_type"),
+    (r"^Types of right and left side of the comparison", "comparison_types"),
+    (r"^Right and left side have to be numbers", "arithmetic_types"),
+    (r"^The given attribute can not be resolved to a boolean", "not_boolean"),
+    (r"^The limit of a counting loop has to be a number", "limit_not_number"),
+    (r"^Only a single task is allowed in a parallel loop", "parallel_loop_body"),
+    (r"calls itself recursively", "recursion"),
+    (r"^The file contains no '", "no_production_task"),
+    (r"^A Struct with the name '", "duplicate_struct"),
+    (r"^A Task with the name '", "duplicate_task"),
+    (r"^An attribute with the name '", "duplicate_attribute"),
+    (r"^There is already a input paramter", "duplicate_in_param"),
+    (r"^There is already a output parameter", "duplicate_out_param"),
+]
+KIND_RES = [(re.compile(p), k) for p, k in KIND_PATTERNS]
+LINE_RE = re.compile(r"^File (.*), in line (-?\d+):(-?\d+)$")
+
+
+def classify(msg):
+    for rx, k in KIND_RES:
+        if rx.search(msg):
+            return k
+    return "syntax_or_other"
+
+
+def parse_console(out):
+    """console format: message line, then 'File <path>, in line L:C'"""
+    errs = []
+    lines = out.split("\n")
+    i = 0
+    msg = []
+    while i < len(lines):
+        m = LINE_RE.match(lines[i])
+        if m:
+            text = "\n".join(msg)
+            errs.append({"msg": text, "kind": classify(text), "line": int(m.group(2)), "col": int(m.group(3))})
+            msg = []
+        elif lines[i] != "" or msg:
+            msg.append(lines[i])
+        i += 1
+    leftover = "\n".join(msg).strip()
+    return errs, leftover
+
+
+def parse_extension(out):
+    """extension format: message, line, column, length - one per line"""
+    lines = [l for l in out.split("\n")]
+    errs = []
+    i = 0
+    while i + 3 < len(lines) + 1 and i < len(lines):
+        if lines[i] == "" and i == len(lines) - 1:
+            break
+        # message may itself not contain newlines (all messages are single-line)
+        try:
+            errs.append({"msg": lines[i], "kind": classify(lines[i]), "line": int(lines[i + 1]), "col": int(lines[i + 2])})
+        except (ValueError, IndexError):
+            return errs, "\n".join(lines[i:])
+        i += 4
+    return errs, ""
+
+
+def run_validator(text, extension=False):
+    """returns dict(valid, exc, out, errs)"""
+    from pfdl_scheduler.utils.parsing_utils import parse_string
+
+    buf = io.StringIO()
+    res = {"valid": None, "exc": None}
+    try:
+        with contextlib.redirect_stdout(buf):
+            r = parse_string(text, used_in_extension=extension)
+        res["valid"] = bool(r[0]) if isinstance(r, tuple) and len(r) == 2 else "not-a-pair"
+        res["has_process"] = r[1] is not None if isinstance(r, tuple) and len(r) == 2 else None
+    except RecursionError:
+        res["exc"] = "RecursionError"
+    except Exception as ex:  # noqa: BLE001
+        res["exc"] = type(ex).__name__
+        res["exc_msg"] = str(ex)[:200]
+    out = buf.getvalue()
+    res["out"] = out
+    res["errs"], res["leftover"] = (parse_extension(out) if extension else parse_console(out))
+    return res
+
+
+# ---------------------------------------------------------------------------------------------
+# nodes and spans
+
+
+def all_nodes(prog):
+    """every struct, task, statement and call with its line span"""
+    nodes = []
+    for s in prog.get("structs", []):
+        nodes.append(s)
+    for t in prog.get("tasks", []):
+        nodes.append(t)
+
+        def visit(stmts):
+            for st in stmts:
+                nodes.append(st)
+                k = st["k"]
+                if k == "par":
+                    nodes.extend(st["calls"])
+                elif k == "cond":
+                    visit(st["passed"])
+                    if st.get("failed"):
+                        visit(st["failed"])
+                elif k in ("cloop", "wloop"):
+                    visit(st["body"])
+                elif k == "ploop":
+                    if st.get("body") is not None:
+                        visit(st["body"])
+                    elif st.get("call") is not None:
+                        nodes.append(st["call"])
+
+        visit(t["body"])
+    return [n for n in nodes if "line" in n]
+
+
+def node_line_of(nodes, line):
+    """start line of the innermost node whose span contains `line` (None if outside every node)"""
+    best = None
+    for n in nodes:
+        if n["line"] <= line <= n.get("end_line", n["line"]):
+            if best is None or (n.get("end_line", n["line"]) - n["line"]) <= (best.get("end_line", best["line"]) - best["line"]):
+                best = n
+    return best["line"] if best else None
+
+
+def impl_projection(res, nodes):
+    out = []
+    for e in res["errs"]:
+        if e["kind"] == "no_production_task":
+            out.append([e["kind"], 1])
+        else:
+            out.append([e["kind"], node_line_of(nodes, e["line"])])
+    return sorted(out, key=lambda x: (x[0], x[1] or -1))
+
+
+def model_projection(resp):
+    return sorted([[k, l] for k, l in resp.get("errors", [])], key=lambda x: (x[0], x[1] or -1))
+
+
+# ---------------------------------------------------------------------------------------------
+# jobs
+
+
+def job_wf(args):
+    """C11 / C16 / correspondence on a well-formed program: layouts and a permutation"""
+    seed, size = args
+    rng = random.Random(seed)
+    signal.signal(signal.SIGALRM, _alarm)
+    signal.alarm(120)
+    try:
+        prog = vgen.gen_wf_program(rng, size=size)
+        variants = []
+        layouts = [None] + [random_layout(rng) for _ in range(2)]
+        for li, lay in enumerate(layouts):
+            p = copy.deepcopy(prog)
+            text = vgen.print_program(p, lay)
+            r = run_validator(text)
+            variants.append({"what": "layout %d %r" % (li, lay), "prog": p, "text": text, "res": r})
+        pp = vgen.permute_definitions(copy.deepcopy(prog), rng)
+        text = vgen.print_program(pp, None)
+        r = run_validator(text)
+        variants.append({"what": "permuted definitions", "prog": pp, "text": text, "res": r})
+        rx = run_validator(variants[0]["text"], extension=True)
+        signal.alarm(0)
+        return {"seed": seed, "variants": variants, "ext": rx}
+    except CaseTimeout:
+        return {"seed": seed, "timeout": True, "variants": []}
+    finally:
+        signal.alarm(0)
+
+
+def random_layout(rng):
+    return {"indent": rng.choice([1, 2, 3, 4, 5, 8]), "comments": rng.random() < 0.5, "blank_lines": rng.random() < 0.5,
+            "trailing_blanks": rng.random() < 0.4, "crlf": rng.random() < 0.3, "no_final_newline": rng.random() < 0.3,
+            "literal_style": rng.choice([0, 1, 2])}
+
+
+def job_faults(args):
+    """C10 / C19 / C16 / correspondence on single-fault programs"""
+    seed, size, k = args
+    rng = random.Random(seed)
+    signal.signal(signal.SIGALRM, _alarm)
+    signal.alarm(180)
+    out = []
+    try:
+        prog = vgen.gen_wf_program(rng, size=size)
+        for mp_, info in vgen.sample_faults(prog, rng, k):
+            lay = random_layout(rng) if rng.random() < 0.5 else None
+            text = vgen.print_program(mp_, lay)
+            target = vgen.resolve_target(mp_, info)
+            r = run_validator(text)
+            rx = run_validator(text, extension=True)
+            out.append({"cls": info["cls"], "whole_file": bool(info.get("whole_file")), "prog": mp_, "text": text,
+                        "span": [target.get("line"), target.get("end_line", target.get("line"))] if target else None,
+                        "res": r, "ext": rx, "nlines": text.count("\n") + 1, "where": info.get("where")})
+        signal.alarm(0)
+        return {"seed": seed, "faults": out}
+    except CaseTimeout:
+        return {"seed": seed, "timeout": True, "faults": out}
+    finally:
+        signal.alarm(0)
+
+
+# G-text: malformed stream -------------------------------------------------------------------
+
+TOKENS = ["Struct", "Task", "In", "Out", "Loop", "While", "To", "Parallel", "Condition", "Passed", "Failed", "End",
+          "number", "string", "boolean", "true", "false", ":", ".", ",", "{", "}", "[", "]", "(", ")", "<", "<=", ">", ">=",
+          "==", "!=", "And", "Or", "!", "*", "/", "-", "+", "1", "2.5", "\"s\"", "x", "Abc", "productionTask", "\n", "\n    ",
+          "\n        ", "#c"]
+WEIRD = ["§", "\t", "ä", "\x00", "\x7f", "'", "$", "@", "\\", "\"", " ", "`", "~", ";", "^", "%", "&", "|", "?"]
+
+
+def mutate_text(rng, text):
+    kind = rng.choice(["delete_tok", "dup_tok", "swap_tok", "replace_tok", "char_del", "char_ins", "truncate", "random_tokens",
+                       "weird_char", "line_del", "line_dup", "indent_shift", "json_break", "deep_parens"])
+    toks = re.findall(r"\s+|[A-Za-z_][A-Za-z0-9_]*|\d+\.\d+|\d+|\"[^\"\n]*\"|==|!=|<=|>=|.", text)
+    if kind == "delete_tok" and toks:
+        i = rng.randrange(len(toks))
+        del toks[i]
+        return kind, "".join(toks)
+    if kind == "dup_tok" and toks:
+        i = rng.randrange(len(toks))
+        toks.insert(i, toks[i])
+        return kind, "".join(toks)
+    if kind == "swap_tok" and len(toks) > 2:
+        i = rng.randrange(len(toks) - 1)
+        toks[i], toks[i + 1] = toks[i + 1], toks[i]
+        return kind, "".join(toks)
+    if kind == "replace_tok" and toks:
+        i = rng.randrange(len(toks))
+        toks[i] = rng.choice(TOKENS)
+        return kind, "".join(toks)
+    if kind == "char_del" and text:
+        i = rng.randrange(len(text))
+        return kind, text[:i] + text[i + 1:]
+    if kind == "char_ins":
+        i = rng.randrange(len(text) + 1)
+        return kind, text[:i] + rng.choice(WEIRD + list("abcXYZ019 {}[]\":,.")) + text[i:]
+    if kind == "truncate" and text:
+        return kind, text[: rng.randrange(len(text))]
+    if kind == "random_tokens":
+        return kind, " ".join(rng.choice(TOKENS) for _ in range(rng.randint(1, 60)))
+    if kind == "weird_char":
+        i = rng.randrange(len(text) + 1)
+        return kind, text[:i] + rng.choice(WEIRD) + text[i:]
+    lines = text.split("\n")
+    if kind == "line_del" and len(lines) > 1:
+        del lines[rng.randrange(len(lines))]
+        return kind, "\n".join(lines)
+    if kind == "line_dup" and lines:
+        i = rng.randrange(len(lines))
+        lines.insert(i, lines[i])
+        return kind, "\n".join(lines)
+    if kind == "indent_shift" and lines:
+        i = rng.randrange(len(lines))
+        lines[i] = (" " * rng.randint(1, 3) + lines[i]) if rng.random() < 0.5 else lines[i][rng.randint(1, 3):]
+        return kind, "\n".join(lines)
+    if kind == "json_break":
+        js = [m.start() for m in re.finditer(r"\{", text)]
+        if js:
+            i = rng.choice(js)
+            ins = rng.choice(['"a": "x\\q", ', '"a": 01, ', '"a": [1,], ', '"a" 1, ', '"a": {"b": }, ', '"\t": 1, ', '"a": tru, ', '"a": 1e999, '])
+            return kind, text[: i + 1] + ins + text[i + 1:]
+    if kind == "deep_parens":
+        n = rng.choice([5, 30, 120])
+        m = re.search(r"Condition\n(\s+)(.*)\n", text)
+        if m:
+            return kind, text[: m.start(2)] + "(" * n + m.group(2) + ")" * n + text[m.end(2):]
+    return "identity", text
+
+
+def job_text(args):
+    seed, size, k = args
+    rng = random.Random(seed)
+    signal.signal(signal.SIGALRM, _alarm)
+    signal.alarm(180)
+    out = []
+    try:
+        prog = vgen.gen_wf_program(rng, size=size)
+        base = vgen.print_program(copy.deepcopy(prog), random_layout(rng) if rng.random() < 0.5 else None)
+        for _ in range(k):
+            kind, text = mutate_text(rng, base)
+            if rng.random() < 0.3:
+                kind2, text = mutate_text(rng, text)
+                kind = kind + "+" + kind2
+            r = run_validator(text)
+            inert = None
+            if r["exc"] is None and r["valid"] is False:
+                inert = check_inert(text)
+            out.append({"kind": kind, "text": text, "res": r, "inert": inert})
+        signal.alarm(0)
+        return {"seed": seed, "texts": out}
+    except CaseTimeout:
+        return {"seed": seed, "timeout": True, "texts": out}
+    finally:
+        signal.alarm(0)
+
+
+def check_inert(text):
+    """for an invalid program no order can be started: start() is False, events are rejected"""
+    from pfdl_scheduler.scheduler import Scheduler, Event
+
+    buf = io.StringIO()
+    try:
+        with contextlib.redirect_stdout(buf):
+            s = Scheduler(text, True, False)
+            a = s.start()
+            b = s.fire_event(Event("service_finished", {"service_uuid": "0"}))
+            c = s.fire_event(Event("start_production_task", {}))
+        if a is not False or b is not False or c is not False or s.running:
+            return "start()=%r fire_event=%r start-event=%r running=%r" % (a, b, c, s.running)
+        return None
+    except Exception as ex:  # noqa: BLE001
+        return "raised %s" % type(ex).__name__
+
+
+# C09: accepted programs schedule without internal errors ----------------------------------------
+
+
+def typed_value(rng, ty, structs, depth=0):
+    ty = ty.strip()
+    m = re.match(r"^(.*)\[(\d*)\]$", ty)
+    if m:
+        n = int(m.group(2)) if m.group(2) else rng.randint(1, 3)
+        return [typed_value(rng, m.group(1), structs, depth + 1) for _ in range(n)]
+    if ty == "number":
+        return {"q": [rng.choice([0, 1, 1, 2, 2, 3]), 1]}
+    if ty == "boolean":
+        return rng.random() < 0.5
+    if ty == "string":
+        return rng.choice(["a", "b", "abc"])
+    s = structs.get(ty)
+    if s is None or depth > 6:
+        return {}
+    return {a: typed_value(rng, t, structs, depth + 1) for a, t in s["attrs"]}
+
+
+def job_run_accepted(args):
+    """drive an accepted program to the end with well-typed values and a random completion order"""
+    import impl
+
+    seed, size, mode = args
+    rng = random.Random(seed)
+    signal.signal(signal.SIGALRM, _alarm)
+    signal.alarm(120)
+    try:
+        prog = vgen.gen_wf_program(rng, size=size)
+        label = "wf"
+        if mode == "fault":
+            cands = vgen.sample_faults(prog, rng, 3)
+            if cands:
+                prog, info = cands[rng.randrange(len(cands))]
+                label = "fault:" + info["cls"]
+        elif mode == "near":
+            prog, label = near_valid(prog, rng)
+        text = vgen.print_program(prog, None)
+        r = run_validator(text)
+        rec = {"seed": seed, "label": label, "text": text, "valid": r["valid"], "exc": r["exc"], "prog": prog}
+        if r["exc"] or not r["valid"]:
+            signal.alarm(0)
+            return rec
+        rec["shapes"] = sorted(progs.ploop_shapes(prog))
+        structs = {s["name"]: s for s in prog["structs"]}
+        tm = {t["name"]: t for t in prog["tasks"]}
+        nq = [0]
+
+        def answers(name, ctx):
+            nq[0] += 1
+            t = tm.get(ctx.task.name) if ctx is not None else None
+            ty = None
+            if t:
+                for x, xt in t.get("ins", []):
+                    if x == name:
+                        ty = xt
+                for st in progs.walk(t["body"]):
+                    calls = [st] if st["k"] in ("svc", "call") else st.get("calls", []) if st["k"] == "par" else [st["call"]] if st["k"] == "ploop" and st.get("call") else []
+                    for c in calls:
+                        for x, xt in c.get("outs", []) or []:
+                            if x == name:
+                                ty = xt
+            v = typed_value(rng, ty or "number", structs)
+            if nq[0] > 60:
+                v = falsify(v)
+            return v
+
+        imm_bits = [rng.random() < 0.3 for _ in range(5)]
+        run = impl.Run(text, ids="test", answers=answers, imm=lambda k: imm_bits[k % 5])
+        rec["ctor_exc"] = run.ctor_exc
+        if run.s is None:
+            signal.alarm(0)
+            return rec
+        for k in ("ts", "ss", "sf", "tf"):
+            run.register(k, 0)
+        c = run.start()
+        n = 0
+        exc = c.get("exc")
+        while run.pending and n < 80 and not exc:
+            c = run.complete(rng.choice(run.pending))
+            exc = c.get("exc")
+            n += 1
+        rec["run_exc"] = exc
+        rec["run_exc_msg"] = c.get("exc_msg")
+        rec["finished"] = bool(run.calls and run.calls[-1].get("final_marking"))
+        rec["pending"] = len(run.pending)
+        rec["steps"] = n
+        rec["queries"] = nq[0]
+        signal.alarm(0)
+        return rec
+    except CaseTimeout:
+        return {"seed": seed, "timeout": True}
+    finally:
+        signal.alarm(0)
+
+
+def falsify(v):
+    if isinstance(v, dict):
+        if "q" in v:
+            return {"q": [0, 1]}
+        return {k: falsify(x) for k, x in v.items()}
+    if isinstance(v, list):
+        return [falsify(x) for x in v]
+    if isinstance(v, bool):
+        return False
+    return v
+
+
+def near_valid(prog, rng):
+    """near-valid variants named by the property: recursion, zero limits, undeclared limit variables"""
+    p = copy.deepcopy(prog)
+    kind = rng.choice(["self_recursion", "mutual_recursion", "zero_limit", "undeclared_limit", "string_condition"])
+    tasks = p["tasks"]
+    if kind == "self_recursion":
+        t = rng.choice(tasks)
+        t["body"].append({"k": "call", "name": t["name"], "ins": [], "outs": []})
+    elif kind == "mutual_recursion" and len(tasks) >= 2:
+        a, b = rng.sample(tasks, 2)
+        a["body"].append({"k": "call", "name": b["name"], "ins": [], "outs": []})
+        b["body"].append({"k": "call", "name": a["name"], "ins": [], "outs": []})
+    elif kind == "zero_limit":
+        for t in tasks:
+            for st in progs.walk(t["body"]):
+                if st["k"] in ("cloop", "ploop") and isinstance(st["limit"], int):
+                    st["limit"] = 0
+    elif kind == "undeclared_limit":
+        for t in tasks:
+            for st in progs.walk(t["body"]):
+                if st["k"] in ("cloop", "ploop"):
+                    st["limit"] = ["zz", "n"]
+                    return p, kind
+    elif kind == "string_condition":
+        for t in tasks:
+            for st in progs.walk(t["body"]):
+                if st["k"] == "cond":
+                    st["e"] = '"abc"'
+                    return p, kind
+    return p, kind
+
+
+# ---------------------------------------------------------------------------------------------
+
+
+def replay_obj(prop, rule, msg, text, extra=None):
+    o = {"property": prop, "family": "valid", "rule": rule, "message": msg, "text": text,
+         "how": "./check %s quick --replay <this file> validates the text with /repo's parse_string and re-evaluates the rule" % prop}
+    if extra:
+        o.update(extra)
+    return o
 
 
 def run(ctx):
-    raise NotImplementedError
+    prop, tier, seed = ctx["prop"], ctx["tier"], ctx["seed"]
+    base = tempfile.mkdtemp(prefix="pfdl_verif_")
+    res = {"violations": [], "known": [], "unexplained": [], "notes": [], "coverage": {}, "assumptions": []}
+    try:
+        pool = mp.Pool(min(16, os.cpu_count() or 4), initializer=_init_worker, initargs=(base,))
+        try:
+            _run(ctx, pool, res)
+        finally:
+            pool.terminate()
+            pool.join()
+    finally:
+        shutil.rmtree(base, ignore_errors=True)
+    return res
+
+
+def add_violation(res, seen, prop, rule, msg, text, extra=None):
+    if rule in seen:
+        seen[rule] += 1
+        return
+    seen[rule] = 1
+    res["violations"].append({"rule": rule, "msg": msg, "replay_obj": replay_obj(prop, rule, msg, text, extra)})
+
+
+def known_rules(prop):
+    out = {}
+    for kf in findings.open_for(prop):
+        try:
+            obj = findings.load_replay(kf)
+        except Exception:  # noqa: BLE001
+            continue
+        if obj.get("family") == "valid":
+            out[kf["id"]] = (kf, obj)
+    return out
+
+
+def _run(ctx, pool, res):
+    prop, tier, seed = ctx["prop"], ctx["tier"], ctx["seed"]
+    quick = tier == "quick"
+    seen = {}
+    cov = {}
+    # replay ------------------------------------------------------------------------------------
+    if ctx.get("replay"):
+        with open(ctx["replay"]) as f:
+            obj = json.load(f)
+        v = pool.apply(job_replay, (prop, obj))
+        for rule, msg in v:
+            add_violation(res, seen, prop, rule, msg, obj.get("text", ""))
+        res["coverage"] = {"evaluations": 1, "distinct_nontrivial": 0, "programs": 1, "samples": [obj.get("text", "")[:300]]}
+        return
+    # known findings ------------------------------------------------------------------------------
+    known = known_rules(prop)
+    known_texts = set()
+    for fid, (kf, obj) in known.items():
+        v = pool.apply(job_replay, (prop, obj))
+        rules = [r for r, m in v]
+        known_texts.add(obj.get("text"))
+        if kf["rule"] in rules:
+            res["known"].append("id=%s %s" % (kf["id"], kf["text"]))
+            for r, m in v:
+                if r not in obj.get("rules_allowed", [kf["rule"]]):
+                    add_violation(res, seen, prop, r, "finding %s now fails differently: %s" % (fid, m), obj.get("text", ""))
+        elif v:
+            add_violation(res, seen, prop, v[0][0], "finding %s now fails differently: %s" % (fid, v[0][1]), obj.get("text", ""))
+        else:
+            res["notes"].append("finding %s no longer reproduces on this tree" % fid)
+    size = 3 if quick else 4
+    n_wf = {"C11": 220, "C16": 60, "C10": 40, "C19": 40, "C09": 0}[prop] * (1 if quick else 10)
+    n_fault = {"C10": 200, "C19": 200, "C16": 60, "C11": 30, "C09": 0}[prop] * (1 if quick else 10)
+    n_text = {"C16": 220, "C10": 0, "C11": 0, "C19": 0, "C09": 0}[prop] * (1 if quick else 10)
+    n_run = {"C09": 260}.get(prop, 0) * (1 if quick else 10)
+    wf_jobs = [(seed * 7919 + i, size) for i in range(n_wf)]
+    fault_jobs = [(seed * 104729 + i, size, 4) for i in range(n_fault)]
+    text_jobs = [(seed * 1299709 + i, size, 6) for i in range(n_text)]
+    run_jobs = [(seed * 15485863 + i, size, ["wf", "wf", "fault", "near"][i % 4]) for i in range(n_run)]
+    wf_res = pool.map(job_wf, wf_jobs, chunksize=2) if wf_jobs else []
+    fault_res = pool.map(job_faults, fault_jobs, chunksize=2) if fault_jobs else []
+    text_res = pool.map(job_text, text_jobs, chunksize=2) if text_jobs else []
+    run_res = pool.map(job_run_accepted, run_jobs, chunksize=2) if run_jobs else []
+    timeouts = sum(1 for r in wf_res + fault_res + text_res + run_res if r.get("timeout"))
+
+    model_reqs = []  # (tag, prog, impl_res, text)
+    n_eval = 0
+    distinct = set()
+    nontrivial = set()
+    hist_cls = {}
+    hist_kinds = {}
+    sample = None
+    # well-formed ---------------------------------------------------------------------------------
+    for r in wf_res:
+        verdicts = []
+        for v in r["variants"]:
+            n_eval += 1
+            rv = v["res"]
+            key = hashlib.sha256(v["text"].encode()).hexdigest()
+            distinct.add(key)
+            if sample is None:
+                sample = {"text": v["text"][:1500], "valid": rv["valid"]}
+            if rv["exc"]:
+                add_violation(res, seen, "C16", "raises", "validation of a well-formed program raised %s (%s)" % (rv["exc"], v["what"]), v["text"])
+                continue
+            verdicts.append(rv["valid"])
+            if rv["valid"] is not True or rv["out"] != "":
+                add_violation(res, seen, "C11", "wf_rejected" if rv["valid"] is not True else "wf_output",
+                              "a well-formed program is %s (%s): %s" % ("rejected" if rv["valid"] is not True else "accepted but prints output", v["what"], rv["out"][:300]), v["text"])
+            if (rv["valid"] is True) != (rv["out"] == ""):
+                add_violation(res, seen, "C16", "verdict_vs_output", "verdict %r but output %r" % (rv["valid"], rv["out"][:200]), v["text"])
+            model_reqs.append(("wf", v["prog"], rv, v["text"]))
+            if len(v["text"]) > 400:
+                nontrivial.add(key)
+        if len(set(verdicts)) > 1:
+            add_violation(res, seen, "C11", "verdict_depends_on_layout_or_order", "verdicts %r over layouts/permutation of one program" % verdicts, r["variants"][0]["text"])
+        if r.get("ext") and r["variants"]:
+            ex = r["ext"]
+            if ex["exc"] is None and ex["valid"] != r["variants"][0]["res"]["valid"]:
+                add_violation(res, seen, "C19", "formats_disagree", "console and extension format give different verdicts", r["variants"][0]["text"])
+    # faults ----------------------------------------------------------------------------------------
+    for r in fault_res:
+        for f in r["faults"]:
+            n_eval += 1
+            rv, rx = f["res"], f["ext"]
+            key = hashlib.sha256(f["text"].encode()).hexdigest()
+            distinct.add(key)
+            nontrivial.add(key)
+            h = hist_cls.setdefault(f["cls"], {"n": 0, "rejected": 0, "accepted": 0, "raised": 0, "line_in_span": 0})
+            h["n"] += 1
+            if rv["exc"]:
+                h["raised"] += 1
+                add_violation(res, seen, "C16", "raises", "validation raised %s on a program with fault %s (%s)" % (rv["exc"], f["cls"], f.get("where")), f["text"], {"cls": f["cls"]})
+                add_violation(res, seen, "C10", "fault_raises_" + f["cls"], "fault %s (%s): validation raised %s instead of reporting" % (f["cls"], f.get("where"), rv["exc"]), f["text"], {"cls": f["cls"]})
+                continue
+            for e in rv["errs"]:
+                hist_kinds[e["kind"]] = hist_kinds.get(e["kind"], 0) + 1
+            if rv["valid"] is not False or not rv["errs"]:
+                h["accepted"] += 1
+                add_violation(res, seen, "C10", "fault_accepted_" + f["cls"], "fault %s (%s) is not reported: valid=%r messages=%d" % (f["cls"], f.get("where"), rv["valid"], len(rv["errs"])), f["text"], {"cls": f["cls"]})
+            else:
+                h["rejected"] += 1
+                # C19: a line inside the construct (line 1 for whole-file), none outside the file
+                lines = [e["line"] for e in rv["errs"]]
+                span = f["span"]
+                ok = (1 in lines) if f["whole_file"] else bool(span and span[0] is not None and any(span[0] <= l <= span[1] for l in lines))
+                if ok:
+                    h["line_in_span"] += 1
+                else:
+                    add_violation(res, seen, "C19", "line_outside_construct_" + f["cls"],
+                                  "fault %s (%s): reported lines %r, construct spans lines %r" % (f["cls"], f.get("where"), lines, "1 (whole file)" if f["whole_file"] else span), f["text"], {"cls": f["cls"]})
+                if any(l < 1 or l > f["nlines"] for l in lines):
+                    add_violation(res, seen, "C19", "line_outside_file", "reported lines %r, file has %d lines" % (lines, f["nlines"]), f["text"])
+                if rx["exc"] is None:
+                    xl = sorted(e["line"] for e in rx["errs"])
+                    if xl != sorted(lines) or rx["leftover"]:
+                        add_violation(res, seen, "C19", "formats_disagree", "console format reports lines %r, extension format %r %s" % (sorted(lines), xl, rx["leftover"][:80]), f["text"])
+            if (rv["valid"] is True) != (rv["out"] == ""):
+                add_violation(res, seen, "C16", "verdict_vs_output", "verdict %r but output %r" % (rv["valid"], rv["out"][:200]), f["text"])
+            if not any(e["kind"] == "syntax_or_other" for e in rv["errs"]):
+                model_reqs.append(("fault:" + f["cls"], f["prog"], rv, f["text"]))
+    # texts -------------------------------------------------------------------------------------------
+    text_kinds = {}
+    for r in text_res:
+        for t in r["texts"]:
+            n_eval += 1
+            rv = t["res"]
+            key = hashlib.sha256(t["text"].encode()).hexdigest()
+            distinct.add(key)
+            tk = text_kinds.setdefault(t["kind"].split("+")[0], {"n": 0, "valid": 0, "invalid": 0, "raised": 0})
+            tk["n"] += 1
+            if rv["exc"]:
+                tk["raised"] += 1
+                if t["text"] not in known_texts:
+                    add_violation(res, seen, "C16", "raises_" + rv["exc"], "validation raised %s (%s) on a %s mutation" % (rv["exc"], rv.get("exc_msg", "")[:80], t["kind"]), t["text"], {"mutation": t["kind"]})
+                continue
+            nontrivial.add(key)
+            tk["valid" if rv["valid"] else "invalid"] += 1
+            if rv["valid"] not in (True, False):
+                add_violation(res, seen, "C16", "not_a_verdict", "parse_string returned %r" % (rv["valid"],), t["text"])
+            if (rv["valid"] is True) != (rv["out"] == ""):
+                add_violation(res, seen, "C16", "verdict_vs_output", "verdict %r but output %r" % (rv["valid"], rv["out"][:200]), t["text"])
+            if t.get("inert"):
+                add_violation(res, seen, "C16", "invalid_not_inert", "invalid program but %s" % t["inert"], t["text"])
+    # accepted programs run ------------------------------------------------------------------------------
+    run_hist = {}
+    for r in run_res:
+        if r.get("timeout"):
+            continue
+        n_eval += 1
+        lab = r["label"].split(":")[0] + ("/accepted" if r.get("valid") else "/rejected")
+        run_hist[lab] = run_hist.get(lab, 0) + 1
+        key = hashlib.sha256(r["text"].encode()).hexdigest()
+        distinct.add(key)
+        if r.get("exc"):
+            add_violation(res, seen, "C16", "raises", "validation raised %s (%s)" % (r["exc"], r["label"]), r["text"])
+            continue
+        if not r.get("valid"):
+            continue
+        nontrivial.add(key)
+        if r.get("shapes"):
+            run_hist["known_ploop_shape"] = run_hist.get("known_ploop_shape", 0) + 1
+        if r.get("ctor_exc"):
+            add_violation(res, seen, "C09", "construction_raises_" + r["ctor_exc"], "accepted program (%s): Scheduler construction raised %s" % (r["label"], r["ctor_exc"]), r["text"], {"label": r["label"]})
+        elif r.get("run_exc"):
+            if not r.get("shapes"):
+                add_violation(res, seen, "C09", "run_raises_" + r["run_exc"], "accepted program (%s): %s escaped start()/fire_event(): %s" % (r["label"], r["run_exc"], r.get("run_exc_msg")), r["text"], {"label": r["label"]})
+        elif not r.get("finished") and r.get("pending") == 0 and not r.get("shapes"):
+            add_violation(res, seen, "C09", "does_not_complete", "accepted program (%s): nothing outstanding but the order did not complete" % r["label"], r["text"], {"label": r["label"]})
+    # model correspondence -----------------------------------------------------------------------------------
+    disagreements = []
+    if ctx["model_ok"] and model_reqs:
+        resps = run_model([{"k": "check", "prog": p} for _, p, _, _ in model_reqs])
+        for (tag, p, rv, text), resp in zip(model_reqs, resps):
+            if "error" in resp:
+                disagreements.append((tag, text, "model error: " + resp["error"]))
+                continue
+            nodes = all_nodes(p)
+            if resp.get("raised"):
+                disagreements.append((tag, text, "model predicts an exception, implementation returned valid=%r" % rv["valid"]))
+                continue
+            pi, pm = impl_projection(rv, nodes), model_projection(resp)
+            if prop in ("C10", "C11", "C16", "C09"):
+                # verdict and message kinds
+                a = sorted(k for k, l in pi)
+                b = sorted(k for k, l in pm)
+                if a != b:
+                    disagreements.append((tag, text, "message kinds: implementation %r / model %r" % (a, b)))
+            else:
+                if pi != pm:
+                    disagreements.append((tag, text, "messages (kind, construct line): implementation %r / model %r" % (pi, pm)))
+    elif not ctx["model_ok"]:
+        res["unexplained"].append({"what": "the Lean model does not build: " + "; ".join(ctx["build"].get("build_errors", [])[:3])})
+    if disagreements and not [v for v in res["violations"]]:
+        tag, text, d = disagreements[0]
+        res["unexplained"].append({"what": "correspondence broken (validation model, %s projection) on %d of %d programs: [%s] %s"
+                                           % (prop, len(disagreements), len(model_reqs), tag, d), "case": {"text": text}, "detail": d})
+    # only violations of this property count --------------------------------------------------------------------
+    res["violations"] = [v for v in res["violations"] if v["replay_obj"]["property"] == prop]
+    for v in res["violations"]:
+        v["replay_obj"]["occurrences"] = seen.get(v["rule"])
+    res["coverage"] = {
+        "programs": len(distinct),
+        "evaluations": n_eval,
+        "distinct_nontrivial": len(nontrivial),
+        "rule": "programs from the typed well-formed generator tools/vgen.py (layout variants, permutations of definitions), single-fault mutations of them (catalogue of %d classes at random applicable positions), text mutations; distinct by text hash; non-trivial: carries a fault / is a text mutation that did not raise / is a well-formed program of more than 400 characters / was accepted and driven by the scheduler" % len(vgen.FAULT_CLASSES),
+        "traces_validated_against_impl": len(model_reqs) if ctx["model_ok"] else 0,
+        "disagreements_checked": len(disagreements),
+        "fault_classes": hist_cls,
+        "message_kinds": hist_kinds,
+        "text_mutations": text_kinds,
+        "accepted_runs": run_hist,
+        "timeouts": timeouts,
+        "known_findings_reproduced": len(res["known"]),
+        "samples": [sample] if sample else [{"note": "see fault_classes / text_mutations"}],
+    }
+    if prop != "C11" and not sample:
+        for r in fault_res[:1]:
+            for f in r["faults"][:1]:
+                res["coverage"]["samples"] = [{"cls": f["cls"], "where": f.get("where"), "text": f["text"][:1200], "messages": f["res"]["errs"][:3]}]
+        for r in text_res[:1]:
+            for t in r["texts"][:1]:
+                res["coverage"]["samples"] = [{"mutation": t["kind"], "text": t["text"][:800], "valid": t["res"]["valid"]}]
+        for r in run_res[:1]:
+            if not r.get("timeout"):
+                res["coverage"]["samples"] = [{"label": r["label"], "text": r["text"][:1200], "valid": r.get("valid"), "finished": r.get("finished")}]
+
+
+def job_replay(prop, obj):
+    """re-evaluate the rule of a replay file on the current tree; returns [(rule, msg)]"""
+    text = obj.get("text", "")
+    rule = obj.get("rule", "")
+    out = []
+    r = run_validator(text)
+    if r["exc"]:
+        out.append(("raises_" + r["exc"] if prop == "C16" else "raises", "validation raised %s: %s" % (r["exc"], r.get("exc_msg", ""))))
+        if rule.startswith("fault_"):
+            out.append(("fault_raises_" + obj.get("cls", ""), "validation raised %s" % r["exc"]))
+        return out
+    if (r["valid"] is True) != (r["out"] == ""):
+        out.append(("verdict_vs_output", "verdict %r output %r" % (r["valid"], r["out"][:100])))
+    if rule.startswith("wf_") and (r["valid"] is not True or r["out"]):
+        out.append((rule, "still rejected / output: %s" % r["out"][:200]))
+    if rule.startswith("fault_accepted_") and r["valid"] is True:
+        out.append((rule, "still accepted"))
+    if rule.startswith("line_outside_construct") and obj.get("span"):
+        lines = [e["line"] for e in r["errs"]]
+        span = obj["span"]
+        if not any(span[0] <= l <= span[1] for l in lines):
+            out.append((rule, "reported lines %r construct %r" % (lines, span)))
+    if prop == "C09" and r["valid"]:
+        import impl
+
+        run = impl.Run(text, ids="test", answers=lambda n, c: None)
+        if run.ctor_exc:
+            out.append(("construction_raises_" + run.ctor_exc, "Scheduler construction raised %s" % run.ctor_exc))
+        elif run.s is not None and obj.get("drive"):
+            for k in ("ts", "ss", "sf", "tf"):
+                run.register(k, 0)
+            c = run.start()
+            n = 0
+            while run.pending and n < 40 and not c.get("exc"):
+                c = run.complete(run.pending[0])
+                n += 1
+            if c.get("exc"):
+                out.append(("run_raises_" + c["exc"], "raised %s" % c["exc"]))
+    return out
